@@ -13,6 +13,7 @@ import (
 	"path/filepath"
 	"strings"
 	"sync"
+	"sync/atomic"
 	"time"
 
 	"github.com/pkg/sftp"
@@ -23,7 +24,8 @@ func init() { register("c12", runC12) }
 func runC12(c *Ctx) {
 	c.Rule("(a) Seek with whence in {0,1,2,7} x deltas around 0, the size and negative results, on a real File after seeded prior offsets; " +
 		"(b) seeded sequences of File methods (Read, Write, ReadAt, WriteAt, Seek, WriteTo, ReadFrom, Truncate, Stat) under every concurrency option against both servers, offset compared after each step with an os.File driven identically; " +
-		"(c) closed state: every method after Close returns os.ErrClosed, one CLOSE sent; (d) Close racing ReadAt/WriteAt/Stat/Truncate: no request carrying the handle after CLOSE; " +
+		"(b') kind fseqm: the same random method sequences replayed on the extracted model of Xfer/FileOps.v (count, error, data, offset after every step; final content); " +
+		"(c) closed state: every method after Close returns os.ErrClosed, one CLOSE sent; (d) Close racing ReadAt/WriteAt/Stat/Truncate: no request carrying the handle after CLOSE; (d') kind closehammer: 2-6 goroutines repeating one method until it reports os.ErrClosed while Close is called after a seeded 20-420 us; " +
 		"non-trivial = sequence step that moves the offset or fails")
 	// (a) Seek cases: model-compared
 	dir, err := os.MkdirTemp("", "vh-c12-")
@@ -90,6 +92,13 @@ func runC12(c *Ctx) {
 	}
 	for i := 0; i < nrace; i++ {
 		c12CloseRace(c, i)
+	}
+	nham := 400
+	if c.Thorough() {
+		nham = 6000
+	}
+	for i := 0; i < nham; i++ {
+		c12CloseHammer(c, i)
 	}
 }
 
@@ -372,4 +381,91 @@ func c12CloseRace(c *Ctx, i int) {
 		ok, why = false, fmt.Sprintf("%d racing calls failed with an error other than os.ErrClosed", notClosedErr)
 	}
 	c.Oracle(n, ok, why)
+}
+
+// c12CloseHammer: 2-6 goroutines each repeat ONE method (Truncate, Stat, ReadAt or WriteAt, the kind fixed per case) as fast as
+// they can until it reports os.ErrClosed, while Close is called after a short seeded delay. The logging peer counts requests
+// that carry the handle and reach the wire after the CLOSE request. Many short cases: the windows in question are a few
+// instructions wide.
+func c12CloseHammer(c *Ctx, i int) {
+	c1, c2 := net.Pipe()
+	peer := &filePeer{store: patternBytes(0, 64), maxTx: 32768, regular: true, rng: rand.New(rand.NewSource(c.Rng.Int63())), window: 1}
+	go peer.serve(c2)
+	cl, err := sftp.NewClientPipe(c1, c1, sftp.MaxPacketUnchecked(32), sftp.MaxConcurrentRequestsPerFile(2))
+	if err != nil {
+		c.Diag("client: %v", err)
+		return
+	}
+	f, err := cl.Open("/f")
+	if err != nil {
+		c.Diag("open: %v", err)
+		return
+	}
+	kind := i % 4
+	g := 2 + (i/4)%5
+	var wg sync.WaitGroup
+	start := make(chan struct{})
+	var bad int32
+	for k := 0; k < g; k++ {
+		wg.Add(1)
+		go func() {
+			defer wg.Done()
+			<-start
+			for j := 0; j < 200000; j++ {
+				var err error
+				switch kind {
+				case 0:
+					err = f.Truncate(64)
+				case 1:
+					_, err = f.Stat()
+				case 2:
+					_, err = f.ReadAt(make([]byte, 8), 0)
+				case 3:
+					_, err = f.WriteAt([]byte("abcd"), 4)
+				}
+				if errors.Is(err, os.ErrClosed) {
+					return
+				}
+				if err != nil && err != io.EOF {
+					atomic.AddInt32(&bad, 1)
+					return
+				}
+			}
+		}()
+	}
+	close(start)
+	time.Sleep(time.Duration(20+c.Rng.Intn(400)) * time.Microsecond)
+	cerr := f.Close()
+	done := make(chan struct{})
+	go func() { wg.Wait(); close(done) }()
+	hung := false
+	select {
+	case <-done:
+	case <-time.After(10 * time.Second):
+		hung = true
+	}
+	cl.Close()
+	if hung {
+		<-done
+	}
+	peer.mu.Lock()
+	closes, afterClose := peer.closes, peer.afterClose
+	peer.mu.Unlock()
+	n := c.Case("closehammer", kvi("i", i), kvs("method", []string{"truncate", "stat", "readat", "writeat"}[kind]), kvi("g", g))
+	c.NT(n)
+	ok, why := true, ""
+	switch {
+	case hung:
+		ok, why = false, "a method racing with Close did not return within 10 s"
+	case closes != 1:
+		ok, why = false, fmt.Sprintf("%d CLOSE requests were sent", closes)
+	case afterClose != 0:
+		ok, why = false, fmt.Sprintf("%d requests carrying the handle were written to the wire after CLOSE (%s racing with Close)", afterClose, []string{"Truncate", "Stat", "ReadAt", "WriteAt"}[kind])
+	case cerr != nil:
+		ok, why = false, "Close returned "+cerr.Error()
+	case bad != 0:
+		ok, why = false, fmt.Sprintf("%d racing calls failed with an error other than os.ErrClosed", bad)
+	}
+	c.Oracle(n, ok, why)
+	c.Stat("closehammer_" + []string{"truncate", "stat", "readat", "writeat"}[kind])
 }
